@@ -458,6 +458,7 @@ impl WorkReq {
             delay_ms,
             req,
             cancel_ms: 0,
+            no_length: false,
         }
     }
     /// Workload diversity by nonce: one request with a body in seven goes to
